@@ -26,7 +26,9 @@ import subprocess
 
 from harness import common, models, gen
 
-THEOREMS = ['C11_reify_keeps_top']
+THEOREMS = ['C11_reify_no_reifiable', 'C11_reify_fresh', 'C11_fresh_names_distinct', 'C11_reify_keeps_rest', 'C11_inverse',
+            'C11_inverse_canonical', 'C11_inverse_exists', 'C11_table_ok_sufficient', 'C11_dereify_never_collapses',
+            'C11_dereify_keeps_others', 'C11_amr_table', 'C11_hypotheses_satisfiable', 'C11_inverse_needs_table_ok']
 
 INSTANCE = ':instance'
 
@@ -63,28 +65,36 @@ def register(name, tbl, live=False):
     inf.codec = PENMANCodec(model=inf.m)
     inf.reifiable = sorted(inf.m.reifications)
     inf.concepts = sorted(inf.m.dereifications)
-    inf.ok = dict((r, role_checks(inf.m, r)) for r in inf.reifiable)
+    inf.ok = dict((r, role_checks(tbl, r)) for r in inf.reifiable)
     inf.key = name if name in ('amr', 'mini', 'default') else json.dumps(tbl, sort_keys=True)
     _INFO[name] = inf
     return inf
 
 
-def role_checks(m, r):
-    """Python twin of Spec.WfGraph.row_shape_ok / row_plain_ok / row_inv_ok for role r."""
-    from penman.exceptions import ModelError
-    c, sr, tr = m.reifications[r][0]
+def spec_dereify(rows, source_role, target_role):
+    """What Model.dereify is documented to answer for a concept with table rows [(role, source, target)]:
+    the first row matching exactly, else the first row matching with the two relations exchanged.
+    Written from the table alone: the domain must not depend on the code under test."""
+    for role, s, t in rows:
+        if s == source_role and t == target_role:
+            return ('as-written', role)
+    for role, s, t in rows:
+        if t == source_role and s == target_role:
+            return ('exchanged', role)
+    return None
 
-    def der(first, second):
-        try:
-            return m.dereify(('v', INSTANCE, c), first, second)
-        except ModelError:
-            return None
-    # sr != tr is DESIGN.md's wording of the hypothesis (Spec.WfGraph.row_shape_ok does not spell it out): with
-    # sr == tr a reified self-loop consists of two EQUAL triples and cannot be restored
+
+def role_checks(tbl, r):
+    """Python twin of Spec.WfGraph.row_shape_ok / row_plain_ok / row_inv_ok for role r of table tbl."""
+    reifs = [tuple(x) for x in tbl['reifs']]
+    _, c, sr, tr = next(x for x in reifs if x[0] == r)
+    rows = [(role, s, t) for role, cc, s, t in reifs if cc == c]
+    reifiable = set(x[0] for x in reifs)
+    # sr != tr: with sr == tr a reified self-loop consists of two EQUAL triples and cannot be restored
     shape = (r != INSTANCE and sr != INSTANCE and tr != INSTANCE and sr.startswith(':') and tr.startswith(':')
-             and sr not in m.reifications and tr not in m.reifications and sr != tr)
-    plain = der(('v', sr, 'A'), ('v', tr, 'B')) == ('A', r, 'B')
-    inv = der(('v', tr, 'B'), ('v', sr, 'A')) == ('A', r, 'B')
+             and sr not in reifiable and tr not in reifiable and sr != tr)
+    plain = spec_dereify(rows, sr, tr) == ('as-written', r)
+    inv = spec_dereify(rows, tr, sr) == ('exchanged', r)
     return (shape, plain, inv)
 
 
@@ -112,6 +122,25 @@ def is_wf(g):
         if r == INSTANCE:
             inst[s] += 1
     return all(inst[v] == 1 for v in g.variables())
+
+
+def epi_ok(g):
+    """Twin of Spec.WfGraph.epi_ok_b: every marker entry talks about a node, every Push names a variable."""
+    from penman.layout import Push
+    vs = g.variables()
+    return all(t[0] in vs and all(not isinstance(e, Push) or e.variable in vs for e in es) for t, es in g.epidata.items())
+
+
+def epis_canonical(es):
+    """Twin of Spec.WfGraph.epis_canonical_b: at most one role alignment, then target alignments, at most one
+    Push, then POPs (the order interpret writes)."""
+    from penman.layout import Push, Pop
+    from penman.surface import Alignment, RoleAlignment
+    ral = [e for e in es if isinstance(e, RoleAlignment)]
+    aln = [e for e in es if isinstance(e, Alignment)]
+    psh = [e for e in es if isinstance(e, Push)]
+    pop = [e for e in es if isinstance(e, Pop)]
+    return list(es) == ral[-1:] + aln + psh[-1:] + pop
 
 
 def is_connected(g):
@@ -204,6 +233,14 @@ def show_outcome(o):
         g = o[1]
         return ('ok', common.canon_graph(g) if not isinstance(g, dict) else g)
     return o
+
+
+def safe_text(codec, g):
+    """One-line text of g for samples and replay (a mutated or broken result may not encode)."""
+    try:
+        return common.timed(lambda: codec.encode(g, indent=None), seconds=5)
+    except Exception as e:
+        return f'<encode raises {e!r}> triples={g.triples}'
 
 
 def canon_epis(es):
@@ -454,11 +491,17 @@ def eval_case(inf, job, out, pending):
                 stat['dropped:amr-other-role(UNEXPECTED)'] += 1
         out.counts.append(((inf.key, text, 'collapse-only'), bool(collapsed)))
         return
+    if not epi_ok(g):
+        stat['dropped:epi-not-ok(UNEXPECTED for decoded graphs)'] += 1
+        return
+    if any(not epis_canonical(g.epidata.get(t, [])) for t in g.triples if m.is_role_reifiable(t[1])):
+        stat['dropped:markers-not-canonical(UNEXPECTED for decoded graphs)'] += 1
+        return
     if not no_coll:
         stat['dropped:collapsible'] += 1
         out.counts.append(((inf.key, text, 'collapse-only'), True))
         if len(out.samples) < 1:
-            out.samples.append(dict(case, dereified=codec.encode(d2, indent=None)))
+            out.samples.append(dict(case, dereified=safe_text(codec, d2)))
         return
     stat['in-domain'] += 1
 
@@ -543,7 +586,7 @@ def eval_case(inf, job, out, pending):
     if why is not None:
         out.fails.append(('inverse-text', f'dereify(reify(g)) != g: {why}', case))
     if nre and len(out.samples) < 2 and (ninv or '~' in text):
-        out.samples.append(dict(case, reified=codec.encode(r, indent=None), restored=codec.encode(d, indent=None)))
+        out.samples.append(dict(case, reified=safe_text(codec, r), restored=safe_text(codec, d)))
 
 
 def settle(out, pending, exe):
@@ -620,8 +663,11 @@ def run(chk):
                 '(models.random_table + a richer variant with two rows per role/concept)}; (collapse) trees around a node with '
                 'a dereifiable concept and the roles of one table row, collapsible or protected by a third relation / being top / '
                 'being referenced. A case is distinct per (model table, text) and non-trivial when at least one triple is reified '
-                '(or a node collapsed). Domain filters: wf, table_ok_for (python twin via Model.dereify), no_collapsible.')
+                '(or a node collapsed). Domain filters (python twins of the hypotheses of C11_inverse): wf, epi_ok, markers of '
+                'reifiable triples in canonical order, table_ok_for (computed from the table alone, incl. sr != tr), no_collapsible.')
     chk.require_theorems('Properties.C11', THEOREMS)
+    chk.assumptions.append('epidata equality is proved as a function triple -> marker list (what configure/encode read); '
+                           'dict key order and materialised empty entries differ and are not observed by encode')
     common.use_repo()
     quick = chk.tier == 'quick'
     rng = chk.rng
@@ -719,18 +765,18 @@ def replay(obj):
           ' no_collapsible:', transform.dereify_edges(g, m).triples == g.triples)
     try:
         r = transform.reify_edges(g, m)
-        print('reified    :', codec.encode(r, indent=None))
+        print('reified    :', safe_text(codec, r))
         print('r.triples  :', r.triples)
         print('r.epidata  :', dict(r.epidata))
         d = transform.dereify_edges(r, m)
-        print('dereified  :', codec.encode(d, indent=None))
+        print('dereified  :', safe_text(codec, d))
         print('d.triples  :', d.triples)
         print('d.epidata  :', dict(d.epidata))
-        print('encode(g)  :', codec.encode(g, indent=None))
+        print('encode(g)  :', safe_text(codec, g))
         print('restored   :', d.triples == g.triples and codec.encode(d) == codec.encode(g)
               and all(canon_epis(d.epidata.get(t, [])) == canon_epis(g.epidata.get(t, [])) for t in g.triples))
     except Exception as e:
         print('raises     :', repr(e))
     d2 = transform.dereify_edges(g, m)
-    print('dereify(g) :', codec.encode(d2, indent=None) if is_connected(d2) else d2.triples)
+    print('dereify(g) :', safe_text(codec, d2))
     return 0
